@@ -2,7 +2,11 @@
 //! of if / elseif / while / not or is reached through a user alias.
 //! input:  C <env> <args>     the argument values are put in variables v0.. and written ${v0} ${v1} ..,
 //!                            so they arrive verbatim at the wrapper; env adds further variables
-//! output: seven space-separated results, in the order
+//!         P <env> <args>     real predicates instead of the capture command: for 2 arguments equals, contains,
+//!                            starts_with and a user function; for 1 argument is_empty and a user function; output
+//!                            one word per predicate, six letters each (direct if elseif while not alias):
+//!                            T / F = truthiness of the output resp. branch taken, E = an error was recorded
+//! output of C: seven space-separated results, in the order
 //!           direct if elseif while not alias alias-with-first-argument-stored
 //!         each  A<list> (capture ran exactly once with these arguments) | N (it did not run) |
 //!               M<k> (it ran k > 1 times) ; prefixed by E when the script recorded an error ; X<text> on a
@@ -65,6 +69,52 @@ fn run_one(script: &str, env: &str, args: &[String]) -> String {
     }
 }
 
+const FUNCTIONS: &str = "fn upred2\nr0 = ends_with ${1} ${2}\nreturn ${r0}\nend\nfn upred1\nr0 = is_empty ${1}\nreturn ${r0}\nend\n";
+
+fn truthy(v: Option<&String>) -> bool {
+    match v {
+        Some(s) => {
+            let l = s.to_lowercase();
+            !(l.is_empty() || l == "0" || l == "false" || l == "no")
+        }
+        None => false,
+    }
+}
+
+/// runs FUNCTIONS + script; `how`: 0 = truthiness of variable r, 1 = r == "T", 2 = n == "false"
+fn run_pred(script: &str, env: &str, args: &[String], how: u8) -> char {
+    let mut context = sdk_context(true);
+    if env != "-" {
+        for pair in env.split(' ') {
+            let mut it = pair.split(':');
+            let n = dec_str(it.next().expect("name"));
+            let v = dec_str(it.next().expect("value"));
+            context.variables.insert(n, v);
+        }
+    }
+    for (i, a) in args.iter().enumerate() {
+        context.variables.insert(format!("v{}", i), a.clone());
+    }
+    match runner::run_script(&format!("{}{}", FUNCTIONS, script), context, None) {
+        Ok(ctx) => {
+            if ctx.variables.contains_key("__first_err") {
+                return 'E';
+            }
+            let t = match how {
+                0 => truthy(ctx.variables.get("r")),
+                1 => ctx.variables.get("r").map(|s| s == "T").unwrap_or(false),
+                _ => ctx.variables.get("n").map(|s| s == "false").unwrap_or(false),
+            };
+            if t {
+                'T'
+            } else {
+                'F'
+            }
+        }
+        Err(_) => 'X',
+    }
+}
+
 fn main() {
     serve(|f| match f[0] {
         "C" => {
@@ -85,6 +135,28 @@ fn main() {
                 out.push("-".to_string());
             } else {
                 out.push(run_one(&format!("alias cap9 capture ${{v0}}\ncap9{}\n", rest), f[1], &args));
+            }
+            out.join(" ")
+        }
+        "P" => {
+            let args = dec_list(f[2]);
+            let refs: Vec<String> = (0..args.len()).map(|i| format!(" ${{v{}}}", i)).collect();
+            let a = refs.join("");
+            let preds: Vec<&str> = if args.len() == 2 {
+                vec!["equals", "contains", "starts_with", "upred2"]
+            } else {
+                vec!["is_empty", "upred1"]
+            };
+            let mut out = vec![];
+            for p in preds {
+                let mut w = String::new();
+                w.push(run_pred(&format!("r = {}{}\n", p, a), f[1], &args, 0));
+                w.push(run_pred(&format!("r = set F\nif {}{}\nr = set T\nend\n", p, a), f[1], &args, 1));
+                w.push(run_pred(&format!("r = set F\nif false\nelseif {}{}\nr = set T\nend\n", p, a), f[1], &args, 1));
+                w.push(run_pred(&format!("r = set F\nwhile {}{}\nr = set T\nexit\nend\n", p, a), f[1], &args, 1));
+                w.push(run_pred(&format!("n = not {}{}\n", p, a), f[1], &args, 2));
+                w.push(run_pred(&format!("alias al9 {}\nr = al9{}\n", p, a), f[1], &args, 0));
+                out.push(w);
             }
             out.join(" ")
         }
